@@ -152,6 +152,17 @@ func e2eRetransWorker(args []string) error {
 
 		return out
 	}
+	// roundOver waits for the end of a round in which the peer answers the k-th transmission: until that transmission
+	// has arrived (however late the agent's timer fires under load; a generous limit), then one and a half time-outs more,
+	// in which a superfluous transmission would show
+	roundOver := func(peer *pfcpx.Peer, seq uint32, typ uint8, k int) {
+		for dl := time.Now().Add(time.Duration(k+8)*T + time.Second); time.Now().Before(dl) && len(txOf(peer, seq, typ)) < k; {
+			time.Sleep(T / 10)
+		}
+
+		time.Sleep(T + T/2)
+	}
+
 	// first request with a sequence number not seen among the first `have` recorded requests
 	nextReq := func(peer *pfcpx.Peer, have int, timeout time.Duration) (pfcpx.Dgram, bool) {
 		deadline := time.Now().Add(timeout)
@@ -208,7 +219,7 @@ func e2eRetransWorker(args []string) error {
 				return fail("the scripted peer has no plan for sequence number %d", d.Seq)
 			}
 
-			time.Sleep(time.Duration(pl.k)*T + T/2) // the round is over half a time-out after its answer
+			roundOver(peer, d.Seq, message.MsgTypeHeartbeatRequest, pl.k)
 			w.Retrans(name, "hb", d.Seq, txOf(peer, d.Seq, message.MsgTypeHeartbeatRequest), pl.mode, pl.k, false, p.N, p.TMs)
 			sum.Stats["round_"+pl.mode]++
 
@@ -339,7 +350,7 @@ func e2eRetransWorker(args []string) error {
 				time.Sleep(2 * T)
 				w.Retrans("cp", "assocreq", d.Seq, txOf(peer, d.Seq, message.MsgTypeAssociationSetupRequest), "kth", 1, false, p.N, p.TMs)
 			default:
-				time.Sleep(time.Duration(first.k)*T + T/2)
+				roundOver(peer, d.Seq, message.MsgTypeAssociationSetupRequest, first.k)
 				w.Retrans("cp", "assocreq", d.Seq, txOf(peer, d.Seq, message.MsgTypeAssociationSetupRequest), first.mode, first.k, false, p.N, p.TMs)
 
 				// the association is up: heartbeats follow the same contract
